@@ -99,6 +99,9 @@ def fid(obj):
     e = _EXTRA_FIDS.get(id(obj))
     if e is not None and e[1] is obj:
         return e[0]
+    import types
+    if isinstance(obj, types.MethodType):
+        return 1000 + fid(obj.__func__)       # a bound method of a registered function
     raise CanonError('unknown callable in provenance: %r' % (obj,))
 
 
